@@ -74,6 +74,7 @@ func runC15(c *Ctx) {
 	c.rule("single-token-per-part", "in the map splitter a token's text is stored into the key (value) state only while that part's already-read flag is false, and the store sets the flag: a second token for the same part is an error, never a silent replacement (an unparsable value is an error rather than a truncated one)", 2)
 	c.rule("error-not-value", "(shared with C12) when the flag source detects an out-of-range or unconvertible flag value its Value returns the error and not a config", 1)
 	c.rule("pair-state-reset", "after the map splitter hands a (key, value) pair to its callback, both pieces of state are reset to \"\" on every path that continues parsing (a value must not leak into a later key that has none)", 2)
+	c.rule("map-results-made", "(shared with C16) a map handed back by a parser is made by that very call - never nil, never a package-level value shared by all calls (the flag helpers merge later occurrences of a flag into the first parsed map, so a shared empty set would accumulate every member ever given and print it as the text of the empty set)", 3)
 	c.rule("dups-rejected", "Map and StringSet report an error for a key that is already present, before storing", 2)
 
 	w := c.W
@@ -87,6 +88,7 @@ func runC15(c *Ctx) {
 	c15QuotedThroughUnquote(c, "quoted-through-unquote")
 	c12PflagTypedRegistration(c)
 	c15EmptyForms(c, "empty-forms")
+	c16MapResultsMade(c)
 
 	// ---- parse-args ------------------------------------------------------------------
 	for _, f := range w.funcsIn("parse") {
